@@ -691,6 +691,60 @@ fn scenario_lines(sc: &str) -> Result<Violations, String> {
     chk(&mut v, "C10.safety", match probe { Ok((r, _)) => !is_err(&r), Err(_) => false });
     Ok(v)
 }
+// ------------------------------------------------------------------ family: connections ($connections == open sessions that selected the database)
+fn scenario_connections(sc: &str) -> Result<Violations, String> {
+    // sc = events separated by '.':  <session a|b|c><op>  ops: d (use-db d tok) e (use-db e etok) u (use-db d usr ut) x (use-db d wrong) l (disconnect)
+    let w = mk_world(0);
+    {   let (mut admin, mut arx) = Client::new_empty_and_receiver();
+        for c in ["auth u p", "create-db e etok"] { run_cmd(&w, &mut admin, &mut arx, c); }
+        std::mem::forget(arx); }
+    let mut v: Violations = vec![];
+    // sessions opened while the world was built (the administrator that created the data) are still counted: measure the baseline
+    let base: Vec<usize> = { let m = w.dbs.map.read().unwrap(); ["d", "e"].iter().map(|n| m.get(*n).unwrap().connections_count()).collect() };
+    let mut sess: Vec<Option<(Client, Receiver<String>)>> = vec![None, None, None];
+    let mut sel: Vec<Option<String>> = vec![None, None, None];
+    for ev in sc.split('.').filter(|e| !e.is_empty()) {
+        let i = (ev.as_bytes()[0] - b'a') as usize;
+        if sess[i].is_none() { sess[i] = Some(Client::new_empty_and_receiver()); }
+        let op = &ev[1..2];
+        let ok = catch_unwind(AssertUnwindSafe(|| {
+            let (c, rx) = sess[i].as_mut().unwrap();
+            match op {
+                "d" => { if !is_err(&run_cmd(&w, c, rx, "use-db d tok").0) { sel[i] = Some("d".into()); } }
+                "e" => { if !is_err(&run_cmd(&w, c, rx, "use-db e etok").0) { sel[i] = Some("e".into()); } }
+                "u" => { if !is_err(&run_cmd(&w, c, rx, "use-db d usr ut").0) { sel[i] = Some("d".into()); } }
+                "x" => { run_cmd(&w, c, rx, "use-db d wrong"); }
+                _ => { c.left(&w.dbs); }
+            }
+        }));
+        if ok.is_err() { v.push("C10.safety".into()); v.push("C17.no-underflow".into()); return Ok(v); }
+        if op == "l" { sess[i] = None; sel[i] = None; }
+        let m = w.dbs.map.read().unwrap();
+        for (bi, name) in ["d", "e"].iter().enumerate() {
+            let name = *name;
+            let want = base[bi] + sel.iter().filter(|s| s.as_deref() == Some(name)).count();
+            let db = m.get(name).unwrap();
+            let got = db.connections_count();
+            let key = db.get_value("$connections".into()).map(|e| e.value);
+            chk(&mut v, "C17.count-is-open-sessions", got == want);
+            for l in ["C17.use-db-increments", "C17.use-db-releases-previous", "C17.left-decrements", "C17.lemma-accounting"] { chk(&mut v, l, got == want); }
+            if want > 0 || key.is_some() { chk(&mut v, "C17.mirror", key.as_deref() == Some(want.to_string().as_str()) || (want == 0 && key.is_none())); }
+        }
+    }
+    Ok(v)
+}
+fn all_connections_scenarios() -> Vec<String> {
+    let evs = ["ad", "ae", "au", "ax", "al", "bd", "be", "bl"];
+    let mut out = vec![];
+    fn rec(evs: &[&str], cur: &mut Vec<String>, depth: usize, out: &mut Vec<String>) {
+        if !cur.is_empty() { out.push(cur.join(".")); }
+        if depth == 0 { return; }
+        for e in evs { cur.push(e.to_string()); rec(evs, cur, depth - 1, out); cur.pop(); }
+    }
+    rec(&evs, &mut vec![], if deep() { 5 } else { 4 }, &mut out);
+    out
+}
+
 /// a client that does not drain its channel (an HTTP request with many commands in one body): `n` times the same line
 fn scenario_flood(sc: &str) -> Result<Violations, String> {
     let p: Vec<&str> = sc.splitn(2, '|').collect();
@@ -729,7 +783,8 @@ fn families() -> Vec<(&'static str, fn() -> Vec<String>, fn(&str) -> Result<Viol
          ("pending", all_pending_scenarios, scenario_pending), ("ids", all_ids_scenarios, scenario_ids),
          ("oplog", all_oplog_scenarios, scenario_oplog), ("session", all_session_scenarios, scenario_session),
          ("arbiter", all_arbiter_scenarios, scenario_arbiter), ("lines", all_lines_scenarios, scenario_lines),
-         ("watch", all_watch_scenarios, scenario_watch), ("flood", all_flood_scenarios, scenario_flood)]
+         ("watch", all_watch_scenarios, scenario_watch), ("flood", all_flood_scenarios, scenario_flood),
+         ("connections", all_connections_scenarios, scenario_connections)]
 }
 
 fn main() {
